@@ -29,13 +29,13 @@ theorem consts_agree :
     otfadStartAddrMask = 0x3FF ∧ otfadEndAddrMask = 0x3F8 ∧ otfadKeyFlagMask = 7 ∧ otfadFlagRO = 4 ∧ otfadFlagADE = 2
     ∧ otfadFlagVLD = 1 ∧ otfadKeySize = 16 ∧ otfadCtrSize = 8 ∧ otfadExportIvSize = 8 ∧ otfadExportNBlocks = 5
     ∧ otfadExportBlobSize = 64 ∧ otfadEncBlockSize = 16 ∧ otfadDataUnit = 1024 ∧ otfadWrappedLen = 40
-    ∧ otfadTableAlign = 256 ∧ otfadScrambleSelMask = 3 ∧ otfadScrambleSelBits = 2 ∧ otfadScrambleWord = 4
+    ∧ otfadTableAlign = 256
     ∧ otfadCtrIncrement = 16
     ∧ ieeLock = 0x95 ∧ ieeUnlock = 0x59 ∧ ieeKey128 = 0x5A ∧ ieeKey256 = 0xA5 ∧ ieeModeBypass = 0x6A ∧ ieeModeXts = 0xA6
     ∧ ieeModeCtrAddr = 0x66 ∧ ieeModeCtrNoAddr = 0xAA ∧ ieeModeCtrKeystream = 0x19
     ∧ ieeHeaderTag = 0x49454542 ∧ ieeKeyblobVersion = 0x56010000 ∧ ieeXtsBlockSize = 4096 ∧ ieeEncBlockSize = 16
-    ∧ ieeDataUnit = 4096 ∧ ieeKeyBlobsSize = 384 ∧ ieeTweakShift = 12 ∧ ieeCtrAddrShift = 4 ∧ ieeKeyFieldSize = 32
-    ∧ beeEncrBlockSize = 1024 ∧ beeCtrAddrShift = 4 ∧ beeFacRegions = 4
+    ∧ ieeDataUnit = 4096 ∧ ieeKeyBlobsSize = 384 ∧ ieeKeyFieldSize = 32
+    ∧ beeEncrBlockSize = 1024 ∧ beeFacRegions = 4
     ∧ beeTagL = 0x5F474154 ∧ beeTagH = 0x52444845 ∧ beeVersion = 0x56010000 ∧ beePrdbSize = 0x100
     ∧ beeHdrPrdbOffset = 0x80 ∧ beeHdrSize = 0x200 ∧ beeModeCtr = 1
     ∧ crcMpegParams = Crc.crc32Mpeg2 := by
